@@ -120,6 +120,15 @@ func (l *Lock) ForkLock() (*Lock, error) {
 	return &Lock{Chain: l.Chain.Fork(), LibSpec: l.LibSpec, Lib: zb.Upgradeable(cp), Epc: l.Epc.Clone()}, nil
 }
 
+// ForkLockKeys is ForkLock with diverging deposit keys on the copy.
+func (l *Lock) ForkLockKeys(off uint64) (*Lock, error) {
+	cp, err := l.Lib.BeaconState.CopyState()
+	if err != nil {
+		return nil, err
+	}
+	return &Lock{Chain: l.Chain.ForkWithKeyOffset(off), LibSpec: l.LibSpec, Lib: zb.Upgradeable(cp), Epc: l.Epc.Clone()}, nil
+}
+
 // Reload re-reads the library state from its own bytes and builds a fresh context.
 func (l *Lock) Reload() error {
 	b, err := zb.StateBytes(l.Lib)
